@@ -12,6 +12,10 @@ def body(chk):
     # the crate's hand-written futures never return Pending without having registered the waker of that poll
     from checks import wakeups
     wakeups.wake_up_contract(chk, 'C04')
+    # what 'attempted' means for one scenario handed to run_scenario - whatever it consists of (no own steps, only a
+    # rule background, no hooks ..): Started .. Finished, the steps there are, and a report of how it ended
+    from checks import attempt_driver
+    attempt_driver.run(chk, 'C04')
 
 
 if __name__ == '__main__':
